@@ -165,6 +165,10 @@ BLOCKS = {
     'out_neg': [-0.5],
     'out_1.5': [1.5],
     'out_10': [10.0],
+    # one root many orders of magnitude away (a formula that cancels, b*b >> 4ac, loses the small roots)
+    'out_1e9': [1.0e9],
+    'out_-1e12': [-1.0e12],
+    'out_3e15': [3.0e15],
     'zero': [0.0],
     'one': [1.0],
     # a simple in-range root with an out-of-range twin 6e-6 away (closer than the duplicate tolerance)
@@ -205,6 +209,9 @@ def multisets(maxdeg):
                     roots = list(S)
                     for b in B:
                         roots += BLOCKS[b]
+                    far = [b for b in B if b in ('out_1e9', 'out_-1e12', 'out_3e15')]
+                    if far and (len(B) > 1 or len(roots) > 3):
+                        continue        # one far root next to one or two simple ones: with clusters or at higher degree the float COEFFICIENTS no longer determine the near roots to 1e-6
                     if len(roots) <= maxdeg:
                         out.append((S, B, roots))
     return out
@@ -277,7 +284,11 @@ def run_roots(shard, nshards, maxperm_deg, maxdeg, acc):
                 case = {'what': 'roots', 'simple': list(S), 'blocks': list(B), 'perm': list(perm)}
                 check_roots(S, B, roots, perm, acc, case)
                 if _ENV['calls'] == c0:
-                    raise AssertionError('numpy.roots seam was not reached')
+                    # this polynomial was solved without numpy.roots (a closed form, say): the answer does
+                    # not depend on the environment's root order, one execution is all there is
+                    acc.case(lambda: case, cls='roots/deg%d/no_environment_call' % n, nontrivial=n > 1)
+                    acc.traces += 1
+                    break
                 acc.case(lambda: case, cls=cls, nontrivial=n > 1)
                 acc.traces += 1
     finally:
@@ -341,6 +352,7 @@ def shards(tier, seed):
     out += [{'what': 'roots', 'shard': i} for i in range(NROOT_SHARDS)]
     out += [{'what': 'limits'}, {'what': 'arc'}]
     out += [{'what': 'special', 'degree': n} for n in range(0, 9)]
+    out += [{'what': 'native', 'degree': n} for n in range(1, 6)]
     return out
 
 
@@ -353,6 +365,8 @@ def run_shard(desc, tier, seed):
         run_roots(desc['shard'], NROOT_SHARDS, tp['maxperm'], tp['maxdeg'], acc)
     elif desc['what'] == 'special':
         run_special(desc['degree'], acc)
+    elif desc['what'] == 'native':
+        run_native(desc['degree'], acc)
     elif desc['what'] == 'limits':
         run_limits(acc)
     else:
@@ -363,11 +377,12 @@ def run_shard(desc, tier, seed):
 def expected_classes(tier):
     out = ['limit/equal', 'limit/f_higher', 'limit/g_higher', 'arc_delegation']
     for n in range(0, 9):
-        out.append('exact/deg%d/bezier_point/certified' % n)
-        out.append('exact/deg%d/split_bezier/certified' % n)
-        out.append('exact/deg%d/bezier2polynomial/certified' % n)
+        out.append('exact/deg%d/bezier_point/certified|exact/deg%d/bezier_point/grid_only' % (n, n))
+        out.append('exact/deg%d/split_bezier/certified|exact/deg%d/split_bezier/grid_only' % (n, n))
+        out.append('exact/deg%d/bezier2polynomial/certified|exact/deg%d/bezier2polynomial/grid_only' % (n, n))
+    out += ['native/%s' % f for f in NATIVE_FORMS]
     for n in range(1, 7):
-        out.append('roots/deg%d/all_permutations' % n)
+        out.append('roots/deg%d/all_permutations|roots/deg%d/no_environment_call' % (n, n))
     return out
 
 
@@ -377,6 +392,9 @@ def finalize(acc):
     ok = acc.extra.get('certificate_runs_ok', {})
     bad = acc.extra.get('certificate_runs_failed', {})
     acc.extra['all_inputs_certificate'] = {k: (k not in bad) for k in sorted(set(ok) | set(bad))}
+    if bad:
+        import sys
+        sys.stderr.write('NOTE property=%s: no degree certificate for %s - decided on the grid only, not for all inputs\n' % (ID, sorted(bad)))
     # the stated permutation bound is a bound, not a cap on something claimed
     acc.extra['permutation_bound_notes'] = dict(acc.caps_hit)
     acc.caps_hit.clear()
@@ -389,8 +407,76 @@ def space(tier, seed):
             'simple_roots': SIMPLE, 'blocks': {k: [core.jz(x) for x in v] for k, v in BLOCKS.items()}}
 
 
+# ---------------------------------------------------------------- native number types
+
+NATIVE_TUPLES = [(0, 10, 20, 5, 7, -3), (3, 7, 1, 1, 8, 2), (1, 0, 0, 1, 0, 1), (-2, -1, 4, 9, 9, 0)]
+NATIVE_FORMS = ['int', 'float', 'complex', 'np_int64_array', 'np_float_array', 'np_complex_array', 'int_list_mixed_bool', 'Fraction']
+
+
+def native_form(vals, form):
+    if form == 'int':
+        return [int(v) for v in vals]
+    if form == 'float':
+        return [float(v) for v in vals]
+    if form == 'complex':
+        return [complex(v, -v / 2.0) for v in vals]
+    if form == 'np_int64_array':
+        return np.array([int(v) for v in vals], dtype=np.int64)
+    if form == 'np_float_array':
+        return np.array([float(v) for v in vals])
+    if form == 'np_complex_array':
+        return np.array([complex(v, -v / 2.0) for v in vals])
+    if form == 'int_list_mixed_bool':
+        return [bool(v) if v in (0, 1) else int(v) for v in vals]
+    return [Fraction(int(v)) for v in vals]
+
+
+def run_native(n, acc, only=None):
+    """the helpers take control points of whatever number type the caller has: Python ints, floats,
+    complex, integer / float / complex ndarrays, Fractions.  Same values, every form, against the exact
+    evaluation over Q (an integer working array that truncates is only seen with all-integer input)."""
+    tuples = [tuple(x[:n + 1]) for x in NATIVE_TUPLES]
+    if n <= 3:
+        tuples += list(itertools.product((0, 1, 10), repeat=n + 1))
+    ts = [0.25, 0.5, 1.0 / 3.0, 0.7]
+    for vals in tuples:
+        for form in NATIVE_FORMS:
+            pts = native_form(vals, form)
+            ex = [GQ.of(complex(q)) for q in (pts.tolist() if hasattr(pts, 'tolist') else pts)] if form != 'Fraction' else \
+                [GQ(q, 0) for q in pts]
+            for t in ts:
+                tq = F(t)
+                want_pt = complex(bernstein_eval(ex, tq))
+                want_split = [[complex(q) for q in side] for side in ref_split(ex, tq)]
+                want_poly = [complex(q) for q in ref_power_coeffs(ex)]
+                mag = max(1.0, max(abs(complex(q)) for q in ex))
+                tests = [('bezier_point', lambda: complex(bezier_point(pts, t)), want_pt),
+                         ('split_bezier', lambda: [[complex(q) for q in side] for side in split_bezier(pts, t)], want_split),
+                         ('bezier2polynomial', lambda: [complex(q) for q in bezier2polynomial(pts)], want_poly)]
+                if t == 0.5:
+                    tests.append(('halve_bezier', lambda: [[complex(q) for q in side] for side in halve_bezier(pts)], want_split))
+                for name, fn, want in tests:
+                    if name == 'bezier2polynomial' and t != ts[0]:
+                        continue
+                    case = {'what': 'native', 'degree': n, 'values': list(vals), 'form': form, 't': t, 'helper': name}
+                    if only and (only['values'] != list(vals) or only['form'] != form or only['t'] != t or only['helper'] != name):
+                        continue
+                    acc.case(case, cls='native/%s' % form)
+                    r = outcome(fn)
+                    ok = r[0] == 'ok'
+                    if ok:
+                        a, b = gridproof.flatten(r[1]), gridproof.flatten(want)
+                        ok = len(a) == len(b) and all(abs(complex(x) - complex(y)) <= 1e-12 * mag for x, y in zip(a, b))
+                    if not ok:
+                        acc.violation('wrong_for_native_number_type', {'helper': name, 'form': form}, case,
+                                      observed=repr(r)[:300], expected=repr(want)[:300])
+
+
 def replay(case):
     acc = core.ReplayAcc()
+    if case['what'] == 'native':
+        run_native(case['degree'], acc, only=case)
+        return acc.vlist
     if case['what'] == 'identity':
         run_identities(case['degree'], case['choice'], acc, only=case['identity'])
     elif case['what'] == 'roots':
